@@ -224,11 +224,12 @@ CLAIMED = {
        "correspondence: the REAL Submitter is run in-process with the handler delivered at every executed line of submit.py and of every callback "
        "(sys.settrace), optional second interruption, restart; its event log (reads of _running, next_job, mkdtemp, setup, rmtree, submit, check, finish, "
        "kill, save) must equal the model's trace; independent monitors state the property on the log.",
-  note="Progress (that a quiescent state IS reached when lifetimes are finite) is not proved in Coq; it is observed on every run of the harness. Signal "
+  note="Progress is proved (props/C18/progress.v): from ANY state, with max_jobs >= 1 and no further signal, finitely many steps reach the exit or the "
+       "quiescent top of the loop (potential: polls owed + jobs in the table + a weight per unsubmitted job); with max_jobs = 0 a livelock is proved. Signal "
        "delivery is modelled at line granularity; remote hosts, max_time and _spawn.py's crash handler are not modelled. The queue returning fresh ids "
        "and mkdtemp fresh folders are environment assumptions. Two defects found by this check were repaired (fix: a043435 pickle mode, f140a01 "
        "termination inside the handler).",
-  technique="Coq proof (invariants by induction over all interleavings of step/stop/restart, no axioms) of a hand model + exhaustive small-scope trace correspondence",
+  technique="Coq proof (invariants by induction over all interleavings of step/stop/restart; termination by a decreasing potential; no axioms) of a hand model + exhaustive small-scope trace correspondence",
   design="§8 C18"),
  "C07": dict(
   text="Axiom-free theorems about a hand model of AtomSelection (coq/model/Sel.v): for all operands given as arbitrary index lists, sum / difference / "
